@@ -85,6 +85,13 @@ def cyclic_graphs(tier, names):
         if _on_st_walk(G) and not nx.is_directed_acyclic_graph(G):
             out.append(G)
     out.extend(multi4(names))
+    if tier != "quick":
+        n = 0
+        for G in graphs.digraphs(4, names):       # any number of sources/sinks, cycles through any non-source non-sink nodes
+            if G.number_of_edges() <= 8 and _on_st_walk(G) and not nx.is_directed_acyclic_graph(G):
+                n += 1
+                if n % 23 == 0:
+                    out.append(G)
     return out
 
 
@@ -132,13 +139,13 @@ def _constraint_sets(G, f):
 
 def cases(tier):
     quick = tier == "quick"
-    nflows = 2 if quick else 6
+    nflows = 3 if quick else 6
     for names in (graphs.NAMES1, graphs.NAMES2):
         Gs = cyclic_graphs(tier, names)
         for gi, G in enumerate(Gs):
             if names is graphs.NAMES2 and gi % (9 if quick else 3):
                 continue
-            if quick and G.number_of_edges() > 7:
+            if quick and G.number_of_edges() > 8:
                 continue
             fl = _spread(walk_flows(G), nflows)
             for fi, f in enumerate(fl):
@@ -167,35 +174,59 @@ def int_routes(G, flow):
     return O.routes_walks(G, {e: (int(flow[e]) if e in se else 1) for e in G.edges()})
 
 
-def fd_min_int(R, flow, constraints=(), coverage=1.0, kmax=7):
+def fd_min_int(R, flow, constraints=(), coverage=1.0, kmax=6):
     """exact minimum number of (walk, integer weight >= 1) pairs explaining `flow`, each constraint inside one chosen walk.
-    Exhaustive search (iterative deepening on k; branch on the first edge with remaining flow)."""
+    Exhaustive search: iterative deepening on k; some walk must cover the edge with the smallest positive remainder, so we
+    branch on the walks through it; failures are memoised per (remainder, constraints met, walks left).  None = no
+    decomposition with <= kmax walks (outside the checked domain)."""
     E = sorted(flow)
-    Rl = [r for r in R if all(r.get(e, 0) <= flow[e] for e in E)]
-    sat = [[O.constraint_ok(r, c, coverage) for c in constraints] for r in Rl]
-    nC = len(constraints)
+    constraints = [sorted(set(c)) for c in constraints]
+    Rl = [r for r in R if all(r.get(e, 0) <= flow[e] for e in E) and all(e in flow for e in r)]
+    vec = [tuple(r.get(e, 0) for e in E) for r in Rl]
+    sat = [sum(1 << j for j, c in enumerate(constraints) if O.constraint_ok(r, c, coverage)) for r in Rl]
+    full = (1 << len(constraints)) - 1
+    acc = 0
+    for s_ in sat:
+        acc |= s_
+    if acc != full:
+        return None
+    byvec = {}
+    for v, s_ in zip(vec, sat):
+        byvec.setdefault(v, 0)
+        byvec[v] |= s_
+    through = [[i for i, v in enumerate(vec) if v[j]] for j in range(len(E))]
+    fail = set()
 
     def rec(rem, left, got):
-        e0 = next((e for e in E if rem[e] > 0), None)
-        if e0 is None:
-            return all(got)
+        if not any(rem):
+            return got == full
         if left == 0:
             return False
-        for ri, r in enumerate(Rl):
-            m0 = r.get(e0, 0)
-            if not m0:
-                continue
-            wmax = min(rem[e] // c for e, c in r.items())
+        key = (rem, left, got)
+        if key in fail:
+            return False
+        if left == 1:
+            g = min(x for x in rem if x)
+            for w in range(1, g + 1):
+                if all(x % w == 0 for x in rem):
+                    s_ = byvec.get(tuple(x // w for x in rem))
+                    if s_ is not None and (got | s_) == full:
+                        return True
+            fail.add(key)
+            return False
+        j0 = min((j for j in range(len(E)) if rem[j] > 0), key=lambda j: (rem[j], len(through[j])))
+        for i in through[j0]:
+            v = vec[i]
+            wmax = min(rem[j] // v[j] for j in range(len(E)) if v[j])
             for w in range(1, wmax + 1):
-                rem2 = dict(rem)
-                for e, c in r.items():
-                    rem2[e] -= w * c
-                if rec(rem2, left - 1, [g or s for g, s in zip(got, sat[ri])]):
+                if rec(tuple(rem[j] - w * v[j] for j in range(len(E))), left - 1, got | sat[i]):
                     return True
+        fail.add(key)
         return False
 
+    start = tuple(flow[e] for e in E)
     for k in range(1, kmax + 1):
-        if rec(dict(flow), k, [False] * nC):
+        if rec(start, k, 0):
             return k
     return None
 
@@ -314,9 +345,9 @@ def check(case):
 def run(tier="quick", seed=0, chunk=0, nchunks=1):
     from vf.bounded import run_cases
     return run_cases(cases(tier), check, chunk, nchunks, engine="rc",
-                     rule="all cyclic digraphs on 3 named nodes + all cyclic digraphs with one source, one sink and two inner nodes (quick: <=7 edges) + 6 multi-source/sink graphs, "
+                     rule="all cyclic digraphs on 3 named nodes + all cyclic digraphs with one source, one sink and two inner nodes (quick: <=8 edges) + 6 multi-source/sink graphs%s, "
                           "every edge on a source-to-sink walk; x %s positive integer flows per graph (superpositions of <=3 walks, cycle multiplicity <=2, weights <=3); "
                           "int weights vs exact enumeration oracle (with 0-2 subset-constraint lists, coverage 1 and 0.5, and 8 option sets on a sample); "
                           "float weights under factors 2, 1/2, 1/10; second naming scheme on a sample; non-trivial = library solved and compared, or a failure"
-                          % ("2" if tier == "quick" else "6"),
-                     bounds="<=4 nodes (5 in the multi-source family), <=%d edges, flows from <=3 walks with weights <=3; oracle decompositions of <=7 walks" % (7 if tier == "quick" else 9))
+                          % ("" if tier == "quick" else " + every 23rd cyclic digraph on 4 named nodes with <=8 edges", "3" if tier == "quick" else "6"),
+                     bounds="<=4 nodes (5 in the multi-source family), <=%d edges, flows from <=3 walks with weights <=3; oracle decompositions of <=7 walks" % (8 if tier == "quick" else 9))
